@@ -129,6 +129,31 @@ func facts(f *hc.Facts) {
 		})
 	}
 	boolFact(f, "rejectsBeyondTail", checkPos > 0 && copyPos > checkPos, vcFound && checkPos == 0, "cdn.verifyChunk: `windowDataEnd < windowEnd && windowDataEnd < chunkEnd` → error, before the overlap copy")
+	// verifyChunk: guards and the two direct-verification cases of the window switch
+	var vconds []string
+	if fd := f.FuncDecl(dir, "cdn.verifyChunk"); fd != nil {
+		ast.Inspect(fd.Body, func(n ast.Node) bool {
+			switch s := n.(type) {
+			case *ast.AssignStmt:
+				if len(s.Lhs) == 1 && f.Src(s.Lhs[0]) == "shortResponse" {
+					vconds = append(vconds, "short="+f.Src(s.Rhs[0]))
+				}
+			case *ast.CaseClause:
+				for _, e := range s.List {
+					vconds = append(vconds, "case "+f.Src(e))
+				}
+			case *ast.IfStmt:
+				c := f.Src(s.Cond)
+				if c == "!c.verify || len(data) == 0" || c == "hash.Limit <= 0" || c == "windowEnd <= current" {
+					vconds = append(vconds, "if "+c)
+				}
+			}
+			return true
+		})
+	}
+	wantV := "if !c.verify || len(data) == 0 | short=requestedLimit > 0 && len(data) < requestedLimit | if hash.Limit <= 0 | if windowEnd <= current | case windowStart >= chunkStart && windowEnd <= chunkEnd | case shortResponse && windowStart >= chunkStart && windowStart < chunkEnd && windowEnd > chunkEnd"
+	gotV := strings.Join(vconds, " | ")
+	boolFact(f, "verifyCasesAsModelled", gotV == wantV, gotV != "" && gotV != wantV, gotV)
 	// verifyChunk: the cursor advances to the end of the window just handled
 	adv := ""
 	if fd := f.FuncDecl(dir, "cdn.verifyChunk"); fd != nil {
@@ -182,7 +207,10 @@ type world struct {
 	hashReqs       int
 	// runs of consecutive retryable RPC timeouts (no wall-clock cost): on the data request at one
 	// offset (master or CDN) and on the first hash requests; retried by reader.next / verifier.next
-	dataFaultOff int64
+	// chunk-once mode: one scripted event per CDN request (s|r|t|m), then serve
+	evScript         string
+	masterServesFile bool
+	dataFaultOff     int64
 	dataFaults   int
 	hashFaults   int
 	redirects      int
@@ -241,6 +269,16 @@ func (w *world) UploadGetFile(ctx context.Context, r *tg.UploadGetFileRequest) (
 	if w.dataFaults > 0 && r.Offset == w.dataFaultOff {
 		w.dataFaults--
 		return nil, tgerr.New(-503, "Timeout")
+	}
+	if w.masterServesFile {
+		off, end := r.Offset, r.Offset+int64(r.Limit)
+		if off > int64(len(w.file)) {
+			off = int64(len(w.file))
+		}
+		if end > int64(len(w.file)) {
+			end = int64(len(w.file))
+		}
+		return &tg.UploadFile{Type: &tg.StorageFilePng{}, Bytes: append([]byte(nil), w.file[off:end]...)}, nil
 	}
 	return &tg.UploadFile{Type: &tg.StorageFilePng{}, Bytes: w.serve(r.Offset, r.Limit)}, nil
 }
@@ -304,6 +342,17 @@ func (c cdnConn) UploadGetCDNFile(ctx context.Context, r *tg.UploadGetCDNFileReq
 	if w.dataFaults > 0 && o == w.dataFaultOff {
 		w.dataFaults--
 		return nil, tgerr.New(-503, "Timeout")
+	}
+	if i := w.cdnReqs - 1; i < len(w.evScript) {
+		switch w.evScript[i] {
+		case 'r':
+			return &tg.UploadCDNFileReuploadNeeded{RequestToken: []byte("rq")}, nil
+		case 't':
+			return nil, tgerr.New(400, "FILE_TOKEN_INVALID")
+		case 'm':
+			w.cdnFile, w.masterServesFile = false, true
+			return nil, tgerr.New(400, "FILE_TOKEN_INVALID")
+		}
 	}
 	if w.cdnReqs == w.tokenInvalidAt {
 		return nil, tgerr.New(400, "FILE_TOKEN_INVALID")
@@ -369,6 +418,8 @@ func runDownload(v *vcase) (res vresult) {
 func errTag(err error) string {
 	e := err.Error()
 	switch {
+	case strings.Contains(e, "state loop"):
+		return "state-loop"
 	case strings.Contains(e, "file hash mismatch"):
 		return "mismatch"
 	case strings.Contains(e, "CDN part is longer"):
@@ -715,6 +766,83 @@ func run(c *hc.Ctx) error {
 		binary.BigEndian.PutUint32(iv2[12:], uint32(off/16))
 		if want := ctrEncrypt(key, iv2, src); err != nil || !bytes.Equal(want, got) {
 			c.Fail("decrypt-counter", line, "decrypt is not AES-CTR with counter offset/16")
+		}
+		add(line, impl)
+	}
+
+	// ---- 2b. one cdn.Chunk call on a fresh schema with scripted token-refresh / reupload events
+	for i := 0; i < c.N(300, 6000); i++ {
+		size := 4096 * r.Range(1, 8)
+		if r.Chance(30) {
+			size -= r.Range(1, 4095)
+		}
+		file := r.Bytes(size)
+		key, iv := r.Bytes(32), r.Bytes(16)
+		iv0 := append([]byte(nil), iv...)
+		binary.BigEndian.PutUint32(iv0[12:], 0)
+		w := &world{file: file, key: key, iv: iv, quirkAt: -1, cdnFile: true, batch: 1}
+		w.image = ctrEncrypt(key, iv0, file)
+		off := 4096 * r.Intn(size/4096+1)
+		limit := 4096 * hc.Pick(r, 1, 1, 2, 3, 4, 8)
+		// events: mostly few, sometimes exactly around the attempt budget (19 passes on a fresh schema)
+		nev := hc.Pick(r, 0, 1, 2, 3, 5, 17, 18, 19, 20, 25)
+		ev := make([]byte, 0, nev+4)
+		for k := 0; k < nev; k++ {
+			ev = append(ev, hc.Pick[byte](r, 'r', 't'))
+			if r.Chance(8) {
+				ev = append(ev, 's') // a request of the pass is served before the next event (may finish the chunk)
+			}
+		}
+		if r.Chance(12) {
+			ev = append(ev, 'm')
+		}
+		w.evScript = string(ev)
+		var got []byte
+		var err error
+		var pv any
+		func() {
+			defer func() {
+				if rr := recover(); rr != nil {
+					pv = rr
+				}
+			}()
+			got, err = downloader.VerifC34ChunkOnce(context.Background(), w, w, int64(off), limit)
+		}()
+		end := off + limit
+		if end > size {
+			end = size
+		}
+		if off > size {
+			off = size
+		}
+		genuine := file[off:end]
+		evs := string(ev)
+		if evs == "" {
+			evs = "-"
+		}
+		line := fmt.Sprintf("chunk1 %d %d %s %s %s %s %s", off, limit, hc.Hex(key), hc.Hex(iv), evs, hc.Hex(w.image), hc.Hex(genuine))
+		sig := fmt.Sprintf("chunk1 off=%d limit=%d size=%d events=%s", off, limit, size, evs)
+		c.Eval(sig, nev > 0)
+		c.Count("chunk1")
+		var impl string
+		switch {
+		case pv != nil:
+			impl = "panic"
+			c.Fail("chunk-panic", sig, fmt.Sprint(pv))
+		case err != nil:
+			impl = "err " + errTag(err)
+			c.Count("chunk1.outcome=" + impl)
+		default:
+			sum := sha256.Sum256(got)
+			impl = fmt.Sprintf("ok len=%d sha=%s", len(got), hex.EncodeToString(sum[:]))
+			c.Count("chunk1.outcome=ok")
+			// control events never change the data of a chunk
+			if !bytes.Equal(got, genuine) {
+				c.Fail("control-event-changes-chunk", sig, fmt.Sprintf("got %d bytes, genuine range has %d", len(got), len(genuine)))
+			}
+		}
+		if w.badCDNReq != "" {
+			c.Fail("cdn-request-invalid", sig, w.badCDNReq)
 		}
 		add(line, impl)
 	}
